@@ -58,6 +58,10 @@ func (o *oracle) checkOutcome(in *Instance, s *Submission) {
 	if s.prefill {
 		return
 	}
+	if s.HTTP && s.Item.Spec != nil {
+		// priority and admission are decided inside the handler; checked by C09's oracle
+		return
+	}
 	full := in.pool > 0 && s.PoolLenBefore >= in.pool
 	switch s.Source {
 	case "ratelimit":
